@@ -59,6 +59,31 @@ def second_system(S, rng):
     return S2
 
 
+def _fixed(text, lengths, strands, complexes):
+    doms = {}
+    for n, L in lengths.items():
+        doms[n] = [L, None]
+        doms[n + "*"] = [L, None]
+    return {"text": text, "stmts": [["x", l] for l in text.splitlines()],
+            "expected": {"domains": doms, "strands": strands,
+                         "complexes": {n: [sq.split(), list(st), None] for n, (sq, st) in complexes.items()},
+                         "macrostates": {}, "reactions": []}}
+
+
+# one composite domain used several times in ONE kernel string, as itself and as its complement, in every order
+FIXED_SYSTEMS = [_fixed(
+    "length x = 3\nlength b = 4\nlength y = 5\nlength a = 6\nsup-sequence xby = x b y\n"
+    "H = xby( a ) + xby\nK = xby*( a + )\nL = xby xby*( + ) xby\nM = xby* + xby xby* a xby\nN = xby( xby*( a ) ) xby*\n",
+    {"x": 3, "b": 4, "y": 5, "a": 6}, {"xby": ["x", "b", "y"]},
+    {"H": ("x b y a y* b* x* + x b y", "(((.)))+..."),
+     "K": ("y* b* x* a + x b y", "(((.+)))"),
+     "L": ("x b y y* b* x* + x b y x b y", "...(((+)))..."),
+     "M": ("y* b* x* + x b y y* b* x* a x b y", "...+.........."),
+     "N": ("x b y y* b* x* a x b y y* b* x* y* b* x*", "((((((.))))))...")})]
+for _f in FIXED_SYSTEMS:
+    del _f["stmts"]
+
+
 def system(rng, big=False):
     if big:
         return gen_pil.make_system(rng, n_dom=rng.randrange(3, 9), n_cplx=rng.randrange(3, 10), n_strands=rng.randrange(0, 5),
@@ -237,6 +262,10 @@ def run(ctx):
     ctx.cov["phase_s"]["correspond"] = round(_t.time() - t0 - ctx.cov["phase_s"]["prove"], 1)
     t1 = _t.time()
     # the property itself on the implementation (support for the witness search; run on every run)
+    ocases += FIXED_SYSTEMS
+    for fc in FIXED_SYSTEMS:          # the model reads them too (whole-reader correspondence)
+        if runner.ok:
+            diffs += correspond(ctx, "fixed-systems", [("read_pil_model", [fc["text"], None])])
     out = run_oracle("c14.py", {"cases": ocases}) if ocases else {"failures": []}
     ctx.cov["oracle(impl)"] = {"systems": len(ocases), "failures": len(out["failures"])}
     ctx.cov["phase_s"]["oracle"] = round(_t.time() - t1, 1)
